@@ -93,7 +93,7 @@ class World:
             a += ["--generate-support", opts["gen_support"]]
         if opts.get("ns_types"):
             a.append("--generate-namespace-types")
-        if opts.get("ext"):
+        if opts.get("ext") is not None:
             a += ["--output-extension", opts["ext"]]
         if opts.get("ns_stem"):
             a += ["--namespace-output-stem", opts["ns_stem"]]
